@@ -23,6 +23,7 @@ import (
 	"fmt"
 	"os"
 	"os/exec"
+	"runtime/debug"
 	"sort"
 	"strconv"
 	"strings"
@@ -400,20 +401,21 @@ func errClass(err error) string {
 // ---------------------------------------------------------------------------------------------
 
 type stats struct {
-	mu                           sync.Mutex
-	built                        int64
-	rejected                     map[string]int
-	distinct                     map[[16]byte]bool
-	decodes                      int64
-	segmentations                int64
-	perDepth                     [3]int64
-	cuts1, cuts2, cuts3, natural int64
-	fullSeg, headerSeg           int64
-	maxLen                       int
-	nameChecks                   int64
-	mayReject                    int64
-	nsBuild, nsRt, nsName, nsSeg [3]int64 // by plan class: 0 full, 1 quick-2dev small, 2 large
-	evaluated                    int64
+	mu                                                                         sync.Mutex
+	built                                                                      int64
+	rejected                                                                   map[string]int
+	distinct                                                                   map[[16]byte]bool
+	decodes                                                                    int64
+	segmentations                                                              int64
+	perDepth                                                                   [3]int64
+	cuts1, cuts2, cuts3, natural                                               int64
+	fullSeg, headerSeg                                                         int64
+	maxLen                                                                     int
+	nameChecks                                                                 int64
+	mayReject                                                                  int64
+	sweepCases, sweepBuilds, sweepCross253, sweepCross65536, sweepCasesCrossed int64
+	nsBuild, nsRt, nsName, nsSeg                                               [3]int64 // by plan class: 0 full, 1 quick-2dev small, 2 large
+	evaluated                                                                  int64
 }
 
 var (
@@ -687,6 +689,39 @@ func evalDesc(idx int64, label string, d pktgen.Desc, depth int, thorough, light
 	return b
 }
 
+// runSweep evaluates one case of the outer-length boundary sweep: the packet is built (and
+// signed: ECDSA signature lengths vary from run to run) repeatedly until three different
+// signature lengths were seen or sweepTries builds were made; the first build gets all clauses,
+// the repeats C03.wf and C03.rt.
+const sweepTries = 24
+
+func runSweep(i int64, sc pktgen.SweepCase, thorough bool) {
+	idx := int64(1)<<40 + i
+	seen := map[int]bool{}
+	crossed := false
+	atomic.AddInt64(&st.sweepCases, 1)
+	for try := 0; try < sweepTries && len(seen) < 3; try++ {
+		b := evalDesc(idx, sc.Label, sc.Desc, 2, thorough, try > 0)
+		atomic.AddInt64(&st.sweepBuilds, 1)
+		if b.Err != nil || b.Panic != "" {
+			return
+		}
+		_, est, shrink, crosses := b.OuterLengths()
+		seen[shrink] = true
+		if crosses {
+			crossed = true
+			if est < 65536 {
+				atomic.AddInt64(&st.sweepCross253, 1)
+			} else {
+				atomic.AddInt64(&st.sweepCross65536, 1)
+			}
+		}
+	}
+	if crossed {
+		atomic.AddInt64(&st.sweepCasesCrossed, 1)
+	}
+}
+
 func runSeg(b *pktgen.Built, root *pktgen.Node, d *pktgen.Desc, plan segPlan, ref *sink, replay map[string]any) {
 	B := b.Bytes
 	n := len(B)
@@ -921,6 +956,23 @@ func replayMain(sp *pktgen.Space, file string) {
 		fmt.Printf("REPLAY-RESULT not reproduced (clause=%s key=%q)\n", r.Clause, r.Key)
 		os.Exit(0)
 	}
+	for i, sc := range pktgen.Sweep(pktgen.Bases()) {
+		if sc.Label != r.Replay.Case {
+			continue
+		}
+		runSweep(int64(i), sc, true)
+		again := false
+		for _, p := range pending {
+			fmt.Printf("REPLAY clause=%s key=%q :: %s\n", p.v.Clause, p.v.Key, p.v.Detail)
+			again = again || (p.v.Clause == r.Clause && p.v.Key == r.Key)
+		}
+		if again {
+			fmt.Printf("REPLAY-RESULT reproduced clause=%s key=%q\n", r.Clause, r.Key)
+			os.Exit(1)
+		}
+		fmt.Printf("REPLAY-RESULT not reproduced in %d signings (clause=%s key=%q)\n", sweepTries, r.Clause, r.Key)
+		os.Exit(0)
+	}
 	report.Fatal("replay %s: case %q is not in the enumerated space", file, r.Replay.Case)
 }
 
@@ -963,6 +1015,7 @@ func main() {
 		fmt.Printf("CHECK-ERROR: C03 worker process failed: %v\n", err)
 		os.Exit(2)
 	}
+	debug.SetGCPercent(600) // decoding produces mostly short-lived garbage; the live heap is small
 	rep = report.New("C03", "exploration")
 	samples.N = 10
 	thorough := rep.Thorough()
@@ -992,7 +1045,12 @@ func main() {
 		copy(cases[first2:], blk)
 	}
 
+	// the outer-length boundary sweep runs first: it is small and must not fall to the time cap
+	sweep := pktgen.Sweep(pktgen.Bases())
+	_, sweepDone := enum.Range(int64(len(sweep)), deadline, func(i int64) { runSweep(i, sweep[i], thorough) })
+
 	done, complete := enum.Range(int64(len(cases)), deadline, func(i int64) { evalCase(sp, i, cases[i], thorough) })
+	complete = complete && sweepDone
 	flushPending()
 
 	rej := map[string]int{}
@@ -1017,10 +1075,18 @@ func main() {
 		"three_cuts":                             st.cuts3,
 		"encoder_own_segmentations":              st.natural,
 		"packets_with_every_1_and_2_cut":         st.fullSeg,
-		"packets_with_header_neighbourhood_cuts_only":                        st.headerSeg,
-		"largest_packet_bytes":                                               st.maxLen,
-		"standalone_name_checks":                                             st.nameChecks,
-		"violating_observations":                                             nViol,
+		"packets_with_header_neighbourhood_cuts_only": st.headerSeg,
+		"largest_packet_bytes":                        st.maxLen,
+		"standalone_name_checks":                      st.nameChecks,
+		"violating_observations":                      nViol,
+		"outer_length_boundary_sweep": map[string]any{
+			"cases": st.sweepCases, "builds": st.sweepBuilds,
+			"targets_estimated_outer_length":                    pktgen.SweepTargets(),
+			"builds_where_the_length_field_shrank_3_to_1_bytes": st.sweepCross253,
+			"builds_where_the_length_field_shrank_5_to_3_bytes": st.sweepCross65536,
+			"cases_with_at_least_one_such_build":                st.sweepCasesCrossed,
+			"rule":                                              "every base x every ECDSA signer mode x payload size such that the estimated outer length is each target; each case signed until 3 different signature lengths were seen or 24 builds",
+		},
 		"stale_digest_name_without_parameters_rejected_by_decoder_(allowed)": st.mayReject,
 		"cpu_seconds_by_phase_and_class": map[string][3]float64{ // class: every-cut packets, quick-tier 2-deviation small packets, >400 B packets
 			"build": secs(st.nsBuild), "contiguous": secs(st.nsRt), "name": secs(st.nsName), "segmentation": secs(st.nsSeg)},
